@@ -8,7 +8,7 @@ import vlib
 
 def obs(group, role, name, findings, exit_code, **extra):
     d = {"group": group, "role": role, "name": name,
-         "findings": [{"id": f["id"], "key": f["key"]} for f in findings],
+         "findings": [dict({"id": f["id"], "key": f["key"]}, **({"pk": f["pk"]} if "pk" in f else {})) for f in findings],
          "exit": -999 if exit_code is None else int(exit_code)}
     d.update(extra)
     return d
